@@ -9,7 +9,8 @@
 (* state is still checked (refused / no-op variants of the trace spec).    *)
 EXTENDS Krill, Sequences, Json
 
-CONSTANTS Depth, MaxApiStreak, MaxDestr
+CONSTANTS Depth, MaxApiStreak, MaxDestr,
+          MftDue, ObjDue   \* the timing regime of the generated runs
 
 VARIABLES hist, streak, settling, dirty, destr
 
@@ -59,6 +60,11 @@ GenApi ==
          \/ RollActivateRefused(c) /\ Api([a |-> "RollActivate", c |-> c])
     \/ "delete" \in Ops /\ \E c \in Sub :
          DeleteCa(c) /\ Api([a |-> "DeleteCa", c |-> c])
+    \/ "pubops" \in Ops /\
+         \/ \E c \in Sub : PubRemove(c) /\ Api([a |-> "PubRemove", c |-> c])
+         \/ \E c \in Sub : PubAdd(c) /\ Api([a |-> "PubAdd", c |-> c])
+         \/ RepoSyncAll /\ Api([a |-> "RepoSyncAll"])
+    \/ "restart" \in Ops /\ UNCHANGED vars /\ Api([a |-> "Restart"])
 
 \* one background task, named
 GenStep ==
@@ -78,16 +84,34 @@ GenSettleRun ==
     /\ settling /\ tasks # {}
     /\ \E c \in AllCA : Task(c)
     /\ UNCHANGED <<hist, streak, settling, dirty, destr>>
+\* the end of a settle; a maintenance run may follow at once, observed in
+\* isolation: mark the facts, run the maintenance task and the syncs it
+\* causes, state the expectation
+\* (a restart with margins larger than the lifetimes stands in for the
+\* passing of time: at the next maintenance run everything is due)
+MaintSeq(task, expect, due) ==
+    IF due
+    THEN << [a |-> "Mark"], [a |-> "RestartDue"], [a |-> task], [a |-> "Pump"],
+            [a |-> "RestartNormal"], [a |-> expect] >>
+    ELSE << [a |-> "Mark"], [a |-> task], [a |-> "Pump"], [a |-> expect] >>
 GenSettleEnd ==
     /\ settling /\ tasks = {}
     /\ settling' = FALSE
-    /\ UNCHANGED <<vars, hist, streak, dirty, destr>>
+    /\ \/ hist' = hist
+       \/ /\ "maintain" \in Ops
+          /\ \/ hist' = hist \o MaintSeq("Republish",
+                              IF MftDue THEN "ExpectReissued" ELSE "ExpectSame", MftDue)
+             \/ hist' = hist \o MaintSeq("Renew",
+                              IF ObjDue THEN "ExpectRenewed" ELSE "ExpectSame", ObjDue)
+    /\ UNCHANGED <<vars, streak, dirty, destr>>
 
-GenNext == GenApi \/ GenStep \/ GenSettleStart \/ GenSettleRun \/ GenSettleEnd
+GenNext == /\ Len(hist) < Depth
+           /\ (GenApi \/ GenStep \/ GenSettleStart \/ GenSettleRun \/ GenSettleEnd)
 
 DepthBound == Len(hist) <= Depth
 
 PrintBehaviour ==
-    (Len(hist) = Depth /\ ~settling)
-    => PrintT(<<"REPLAY", ToJson([top |-> SetToSeq(TopRes), actions |-> Append(hist, [a |-> "Settle"])])>>)
+    (Len(hist) >= Depth /\ ~settling)
+    => PrintT(<<"REPLAY", ToJson([top |-> SetToSeq(TopRes), mftdue |-> MftDue, objdue |-> ObjDue,
+                                  actions |-> Append(hist, [a |-> "Settle"])])>>)
 =============================================================================
